@@ -18,12 +18,13 @@ import (
 
 // VLOp is one step of a version-layer history.
 type VLOp struct {
-	Kind string `json:"k"` // commit | fail | acquire | release | reopen
+	Kind string `json:"k"` // commit | fail | failsw | acquire | release | reopen
 	Add  int    `json:"a,omitempty"`
 	Del  int    `json:"d,omitempty"`
 	Move int    `json:"m,omitempty"`
 	I    int    `json:"i,omitempty"`
 	Wr   bool   `json:"w,omitempty"` // fail: fault on manifest Write instead of Sync
+	Triv bool   `json:"t,omitempty"` // commit with trivial = true (what table compactions pass to session.commit)
 }
 
 // VLCase is a replayable version-layer case.
@@ -32,14 +33,19 @@ type VLCase struct {
 	MaxMan     int64  `json:"maxman"`
 	NoSyncFlag bool   `json:"nosync"`
 	Ops        []VLOp `json:"ops"`
+	// Probe: do not keep to the discipline of the first commit after a recovery (directed cases that leave the
+	// discipline on purpose; the protocol check is then not applied, only model = implementation)
+	Probe bool `json:"probe,omitempty"`
 }
 
 func genVLCase(r *vlib.RNG, n int) VLCase {
 	c := VLCase{Seed: r.Uint64(), MaxMan: int64([]int{0, 0, 1, 512}[r.Intn(4)])}
 	for i := 0; i < n; i++ {
-		switch r.Pick(10, 2, 6, 6, 1) {
+		switch r.Pick(10, 2, 6, 6, 1, 1) {
+		case 5:
+			c.Ops = append(c.Ops, VLOp{Kind: "failsw", Add: r.Range(0, 2), Del: r.Range(0, 2), Triv: r.Bool()})
 		case 0:
-			op := VLOp{Kind: "commit"}
+			op := VLOp{Kind: "commit", Triv: r.Chance(2, 5)}
 			switch r.Pick(4, 5, 1, 1) {
 			case 0:
 				op.Add = 1
@@ -75,46 +81,127 @@ func vlEvent(e leveldb.VerifVLEvent) Event {
 	return Event{Kind: EvAbandon, Vid: e.Vid}
 }
 
-// runVLCase returns a failure text ("" none), the event logs of the sessions (each up to its close) and stats.
-func runVLCase(c VLCase) (fail string, logs [][]Event, stats map[string]int) {
+// tblOf reads the model's view of a table of the real version: the bounds are the numbers in its user keys.
+func tblOf(t leveldb.VerifTable) VTbl {
+	num := func(ik []byte) int64 {
+		var n int64
+		if len(ik) >= 8+9 {
+			fmt.Sscanf(string(ik[1:9]), "%d", &n)
+		}
+		return n
+	}
+	return VTbl{Num: t.Num, Min: num(t.Imin), Max: num(t.Imax)}
+}
+
+// runVLCase returns a failure text ("" none), the sessions of the history (each up to its close: how it was
+// opened, the operations, the events the real layer sent) and stats.
+func runVLCase(c VLCase) (fail string, sessions []VLSession, stats map[string]int) {
 	stats = map[string]int{}
 	r := vlib.NewRNG(c.Seed)
 	stor := vstor.New(false)
 	o := &opt.Options{MaxManifestFileSize: c.MaxMan, NoSync: c.NoSyncFlag}
 	nextNum := int64(10)
-	check := func(vl *leveldb.VerifVersionLayer, upto int, what string) string {
+	var cur VLSession // the session being driven
+	var model *VLModel
+	var modelEvs []Event
+	// check compares what the real layer sent so far with the protocol env_ok and with the model of the version layer
+	check0 := func(vl *leveldb.VerifVersionLayer, upto int, what string, final bool) (string, []Event) {
 		env := NewEnv()
 		log := vl.Log()
-		if upto >= 0 && upto < len(log) {
+		var closing []leveldb.VerifVLEvent
+		if final {
+			// the log is complete now (Close waited for the recorder); what follows the model's events is what
+			// session.close sends: the closing version's reference and the release of the current version
+			if len(log) > len(modelEvs) {
+				closing, log = log[len(modelEvs):], log[:len(modelEvs)]
+			}
+		} else if upto >= 0 && upto < len(log) {
 			log = log[:upto]
 		}
 		var evs []Event
 		for i, e := range log {
 			ev := vlEvent(e)
 			evs = append(evs, ev)
-			if !env.Step(ev) {
-				return fmt.Sprintf("%s: the version layer sent event %d %s, which the protocol env_ok does not allow after %v", what, i, ev, tailEvents(evs, 6))
+			if model.Disc && !env.Step(ev) {
+				for _, e2 := range log[i+1:] {
+					evs = append(evs, vlEvent(e2))
+				}
+				return fmt.Sprintf("%s: the version layer sent event %d %s, which the protocol env_ok does not allow after %v", what, i, ev, tailEvents(evs[:i+1], 6)), evs
 			}
 		}
-		logs = append(logs, evs)
-		return ""
+		for i := 0; i < len(evs) || i < len(modelEvs); i++ {
+			if i >= len(evs) {
+				if !final {
+					break // the recorder may lag by an event
+				}
+				return fmt.Sprintf("%s: the model of the version layer sends event %d %s, the real layer sent nothing more (after %v)", what, i, modelEvs[i], tailEvents(modelEvs[:i+1], 6)), evs
+			}
+			if i >= len(modelEvs) {
+				return fmt.Sprintf("%s: the real version layer sent event %d %s, the model sends nothing more (after %v)", what, i, evs[i], tailEvents(evs[:i+1], 6)), evs
+			}
+			if !eventsEqual(evs[i], modelEvs[i]) {
+				return fmt.Sprintf("%s: event %d of the real version layer is %s, the model of the version layer says %s (after %v)", what, i, evs[i], modelEvs[i], tailEvents(evs[:i+1], 6)), evs
+			}
+		}
+		if final {
+			want := []Event{{Kind: EvRef, Vid: model.nvid}, evRel(model.cur)}
+			if len(closing) != len(want) {
+				return fmt.Sprintf("%s: session.close sent %d events, expected the closing version's reference and the release of version %d", what, len(closing), model.cur.id), evs
+			}
+			for i := range want {
+				if ev := vlEvent(closing[i]); !eventsEqual(ev, want[i]) {
+					return fmt.Sprintf("%s: session.close sent %s, expected %s", what, ev, want[i]), evs
+				}
+			}
+		}
+		return "", evs
+	}
+	// a session is handed on (to the KVL cases) when it ends, and also when something is wrong with it, so that
+	// the Coq model judges the same observation
+	check := func(vl *leveldb.VerifVersionLayer, upto int, what string, final bool) string {
+		d, evs := check0(vl, upto, what, final)
+		if final || d != "" {
+			cur.Events = evs
+			cur.Disc = model.Disc
+			sessions = append(sessions, cur)
+		}
+		return d
 	}
 	vl, err := leveldb.VerifNewVersionLayer(stor, o)
 	if err != nil {
-		return "cannot open the session: " + err.Error(), logs, stats
+		return "cannot open the session: " + err.Error(), sessions, stats
 	}
 	defer func() {
 		if vl != nil {
 			vl.Close()
 		}
 	}()
-	mkTable := func(level int, num int64) leveldb.VerifTable {
-		k := []byte(fmt.Sprintf("k%08d", num))
-		imin, _ := leveldb.VerifMakeIKey(k, uint64(num), 1)
-		imax, _ := leveldb.VerifMakeIKey(append(k, 'z'), uint64(num), 1)
-		return leveldb.VerifTable{Level: level, Num: num, Size: 100 + num, Imin: imin, Imax: imax}
+	cur = VLSession{}
+	model, modelEvs = NewVLModel(false, nil)
+	// apply runs one operation on the model and compares the model's state facts with the real session's
+	apply := func(op VMOp, what string) string {
+		cur.Ops = append(cur.Ops, op)
+		evs, pmsg := model.Step(op)
+		if pmsg != "" {
+			return fmt.Sprintf("%s: the model of the version layer panics (%s), the real layer did not", what, pmsg)
+		}
+		modelEvs = append(modelEvs, evs...)
+		if model.manifest != vl.HasManifest() {
+			return fmt.Sprintf("%s: the session has a manifest writer = %v, the model says %v", what, vl.HasManifest(), model.manifest)
+		}
+		if model.nvid != vl.NextVersionID() {
+			return fmt.Sprintf("%s: the session's next version id is %d, the model says %d", what, vl.NextVersionID(), model.nvid)
+		}
+		return ""
 	}
-	buildRec := func(op VLOp) (added, deleted []leveldb.VerifTable) {
+	mkTable := func(level int, num int64) (leveldb.VerifTable, VTbl) {
+		t := VTbl{Num: num, Min: int64(r.Intn(60))}
+		t.Max = t.Min + int64(r.Intn(6))
+		imin, _ := leveldb.VerifMakeIKey([]byte(fmt.Sprintf("k%08d", t.Min)), 1, 1)
+		imax, _ := leveldb.VerifMakeIKey([]byte(fmt.Sprintf("k%08d", t.Max)), 1, 1)
+		return leveldb.VerifTable{Level: level, Num: num, Size: 100 + num, Imin: imin, Imax: imax}, t
+	}
+	buildRec := func(op VLOp) (added, deleted []leveldb.VerifTable, rec VRec) {
 		_, cur := vl.Current()
 		perm := make([]int, len(cur))
 		for i := range perm {
@@ -128,87 +215,155 @@ func runVLCase(c VLCase) (fail string, logs [][]Event, stats map[string]int) {
 		for ; k < op.Del && k < len(cur); k++ {
 			t := cur[perm[k]]
 			deleted = append(deleted, leveldb.VerifTable{Level: t.Level, Num: t.Num})
+			rec.Deleted = append(rec.Deleted, VDel{Level: t.Level, Num: t.Num})
 		}
 		for m := 0; m < op.Move && k < len(cur); m, k = m+1, k+1 {
 			t := cur[perm[k]]
 			deleted = append(deleted, leveldb.VerifTable{Level: t.Level, Num: t.Num})
+			rec.Deleted = append(rec.Deleted, VDel{Level: t.Level, Num: t.Num})
 			nt := t
 			nt.Level = t.Level + 1
 			added = append(added, nt)
+			rec.Added = append(rec.Added, VAdd{Level: nt.Level, T: tblOf(t)})
 		}
 		for i := 0; i < op.Add; i++ {
 			nextNum += int64(1 + r.Intn(3))
-			added = append(added, mkTable(r.Intn(4), nextNum))
+			vt, mt := mkTable(r.Intn(4), nextNum)
+			added = append(added, vt)
+			rec.Added = append(rec.Added, VAdd{Level: vt.Level, T: mt})
 		}
 		return
 	}
 	// the first commit after a session was recovered is openDB's recoverJournal commit: it only adds tables (the
 	// recovered tables are not yet counted by the loop; a record deleting one of them there would make the
-	// loop panic with a negative count - db.go never does that)
+	// loop panic with a negative count - db.go never does that), and if it fails Open fails: no "failed but
+	// switched" outcome is continued from
 	firstAfterRecover := false
 	for i, op := range c.Ops {
-		if firstAfterRecover && (op.Kind == "commit" || op.Kind == "fail") {
+		what := fmt.Sprintf("op %d (%s)", i, op.Kind)
+		if firstAfterRecover && !c.Probe && (op.Kind == "commit" || op.Kind == "fail" || op.Kind == "failsw") {
 			op.Del, op.Move = 0, 0
+			if op.Kind == "failsw" {
+				op.Kind = "fail"
+			}
 		}
+		d := ""
 		switch op.Kind {
 		case "commit":
-			a, d := buildRec(op)
-			if err := vl.Commit(a, d); err != nil {
+			a, dl, rec := buildRec(op)
+			oc := OcOk
+			if err := vl.CommitT(a, dl, op.Triv); err != nil {
 				stats["unexpected_commit_errors"]++
+				oc = OcFail
 			} else {
 				stats["commits"]++
+				if op.Triv {
+					stats["trivial_flag_commits"]++
+				}
 				firstAfterRecover = false
 			}
-		case "fail":
-			a, d := buildRec(op)
+			d = apply(VMOp{Kind: VCommit, Rec: rec, Trivial: op.Triv, Oc: oc}, what)
+		case "fail", "failsw":
+			a, dl, rec := buildRec(op)
 			kind := vstor.OpSync
 			if op.Wr || c.NoSyncFlag {
 				kind = vstor.OpWrite
 			}
+			if op.Kind == "failsw" {
+				kind = vstor.OpRemove
+			}
 			stor.AddFault(&vstor.Fault{Kind: kind, Type: storage.TypeManifest, K: 0})
-			err := vl.Commit(a, d)
+			err := vl.CommitT(a, dl, op.Triv)
 			stor.Heal()
+			oc := OcOk
 			if err != nil {
-				stats["failed_commits"]++
+				if op.Kind == "failsw" {
+					oc = OcFailSwitched
+					stats["failed_switched_commits"]++
+				} else {
+					oc = OcFail
+					stats["failed_commits"]++
+				}
 			} else {
 				stats["fault_missed"]++
 				firstAfterRecover = false
 			}
+			d = apply(VMOp{Kind: VCommit, Rec: rec, Trivial: op.Triv, Oc: oc}, what)
 		case "acquire":
 			vl.Acquire()
 			stats["acquires"]++
+			d = apply(VMOp{Kind: VAcquire}, what)
 		case "release":
 			if vl.NumHeld() > 0 {
-				vl.Release(op.I % vl.NumHeld())
+				k := op.I % vl.NumHeld()
+				id := vl.HeldID(k)
+				vl.Release(k)
+				d = apply(VMOp{Kind: VRelease, V: id}, what)
 			}
 		case "reopen":
+			for vl.NumHeld() > 0 { // what Close does first; made explicit so that the model sees the releases
+				id := vl.HeldID(0)
+				vl.Release(0)
+				if d = apply(VMOp{Kind: VRelease, V: id}, what); d != "" {
+					return d, sessions, stats
+				}
+			}
 			n := vl.Close()
-			if d := check(vl, n, fmt.Sprintf("session closed at op %d", i)); d != "" {
+			if d := check(vl, n, fmt.Sprintf("session closed at op %d", i), true); d != "" {
 				vl = nil
-				return d, logs, stats
+				return d, sessions, stats
 			}
 			stats["sessions"]++
 			vl, err = leveldb.VerifNewVersionLayer(stor, o)
 			if err != nil {
 				vl = nil
 				stats["reopen_errors"]++
-				return "", logs, stats // a damaged manifest after failed commits is not this property's business
+				return "", sessions, stats // a damaged manifest after failed commits is not this property's business
 			}
 			firstAfterRecover = true
 			stats["reopens"]++
+			// recover's input is the manifest; what it describes is summarised as one record listing the recovered
+			// version (finish(false) orders every level canonically, so the summary yields the same version)
+			_, tabs := vl.Current()
+			var rec VRec
+			for _, t := range tabs {
+				rec.Added = append(rec.Added, VAdd{Level: t.Level, T: tblOf(t)})
+			}
+			cur = VLSession{Recover: true, Recs: []VRec{rec}}
+			model, modelEvs = NewVLModel(true, cur.Recs)
+			if len(tabs) > 0 {
+				stats["recovered_with_tables"]++
+			}
+		}
+		if d != "" {
+			if d2 := check(vl, -1, what, false); d2 == "" { // hand the session on as observed so far
+				cur.Events = nil
+				for _, e := range vl.Log() {
+					cur.Events = append(cur.Events, vlEvent(e))
+				}
+				cur.Disc = model.Disc
+				sessions = append(sessions, cur)
+			}
+			return d, sessions, stats
 		}
 		if i%16 == 15 {
-			if d := check(vl, -1, fmt.Sprintf("after op %d", i)); d != "" {
-				return d, logs, stats
+			if d := check(vl, -1, fmt.Sprintf("after op %d", i), false); d != "" {
+				return d, sessions, stats
 			}
-			logs = logs[:len(logs)-1]
+		}
+	}
+	for vl.NumHeld() > 0 {
+		id := vl.HeldID(0)
+		vl.Release(0)
+		if d := apply(VMOp{Kind: VRelease, V: id}, "final releases"); d != "" {
+			return d, sessions, stats
 		}
 	}
 	n := vl.Close()
-	d := check(vl, n, "at the end")
+	d := check(vl, n, "at the end", true)
 	vl = nil
 	stats["sessions"]++
-	return d, logs, stats
+	return d, sessions, stats
 }
 
 func tailEvents(evs []Event, n int) []string {
